@@ -147,6 +147,12 @@ def delete_episodes(run, sb, rng, tier):
         ns = rng.randint(2, 8) if tier != "quick" else rng.randint(2, 6)
         samples = gen.related_samples(rng, k, ns, length=rng.randint(2 * k + 5, 3 * k + 30), snp_rate=0.05)
         names = ["d%d_%d" % (i, j) for j in range(ns)]
+        if i % 4 == 2:
+            # every sample holds a run of one base longer than k (the all-A split k-mer, 0 in the packed encoding): it stays
+            # with whatever samples remain
+            run_ = ("T" if (rc and i % 8 == 6) else "A") * (k + rng.randint(0, 2))
+            for s_ in samples:
+                s_.append(run_)
         sb.reset()
         e = sb.build("x", samples, names, k, rc)
         if not e.get("ok"):
